@@ -16,7 +16,7 @@ RULE = ('triples (u,v,w) of linear units of one dimension (every table symbol wi
 SHARDS = {'quick': 16, 'thorough': 16}
 MIN_NONTRIVIAL = {'quick': 6000, 'thorough': 150000}
 REQUIRED_CLASSES = ['atom-pair', 'compound-pair', 'named-vs-expansion', 'system-symbol', 'array', 'scalar', 'zero', 'negative',
-                    'extreme', 'reciprocal', 'bare-number-to-rad', 'refusal', 'target-quantity', 'roundtrip', 'via-intermediate', 'same-object-history']
+                    'extreme', 'reciprocal', 'bare-number-to-rad', 'refusal', 'refusal-with-quantity-target', 'target-quantity', 'roundtrip', 'via-intermediate', 'same-object-history']
 REQUIRED_MONITORS = ['value_compares', 'roundtrip_compares', 'path_compares', 'refusal_fingerprint_compares', 'history_step_compares']
 ASSUMPTIONS = ['units_ref factors come from the published tables', 'rtol 1e-9',
                'temperature (Cel, degF) and logarithmic symbols are excluded here (C05)',
@@ -170,7 +170,7 @@ def cases(rng, tier, shard, nshards, ctx):
         else:
             u = gen_compound(rng, ctx, rng.randint(1, 3))
             v = gen_compound(rng, ctx, rng.randint(1, 3))
-            yield dict(t='refuse', u=u, v=v, x=x if x != 0 else 1.0, xc=xc, arr=arr, abse=rng.random() < 0.3, op=rng.choice(['to', 'value']))
+            yield dict(t='refuse', u=u, v=v, x=x if x != 0 else 1.0, xc=xc, arr=arr, abse=rng.random() < 0.3, op=rng.choice(['to', 'value', 'to-quantity']), k=rng.choice([3.0, 0.5, 8.0]))
 
 
 def strip_num(x):
@@ -327,10 +327,18 @@ def _run(case, ctx):
         q = Q(list(xs), ut, abse=0.25) if (arr and case['abse']) else (Q(xs[0], ut, abse=0.25) if case['abse'] else mk())
         fp0 = fingerprint(q)
         raised = None
+        target = fpt0 = None
+        if case['op'] == 'to-quantity':
+            # the target is a Quantity used as a unit (1 target = k x vt): refused just the same, and neither object changes
+            classes.append('refusal-with-quantity-target')
+            target = Q(case.get('k', 3.0), vt)
+            fpt0 = fingerprint(target)
         try:
-            res = q.to(vt) if case['op'] == 'to' else q.value(vt)
+            res = q.to(target) if target is not None else (q.to(vt) if case['op'] == 'to' else q.value(vt))
         except Exception as e:
             raised = e
+        if target is not None and fingerprint(target) != fpt0:
+            devs.append(dev('refused-conversion-changed-the-target-quantity', dict(u=ut, v=vt, now=repr(target))))
         if raised is None:
             devs.append(dev('conversion-between-different-dimensions-accepted', dict(u=ut, v=vt, op=case['op'], result=repr(res)[:80])))
         mon['refusal_fingerprint_compares'] = 1
